@@ -236,7 +236,8 @@ def count_nodes(node):
 # by going through ast (we build ast nodes and unparse them, so precedence is always right).
 ARITY = {'and': 2, 'or': 2, 'not': 1, 'eq': 2, 'lt': 2, 'ifexp': 3, 'add': 2, 'attr': 1, 'call': 2,
          'isnone': 1, 'notnone': 1, 'in': 2, 'neg': 1, 'sub': 2, 'mul': 2, 'index': 2, 'ne': 2, 'chain': 3,
-         'call0': 1, 'kwcall': 2, 'tuple2': 2, 'pow': 2}
+         'call0': 1, 'kwcall': 2, 'tuple2': 2, 'pow': 2, 'bitor': 2, 'lam0': 1, 'fstr': 1, 'fspec': 1, 'inv': 1,
+         'slice': 3, 'starcall': 2}
 
 QUICK_OPS = ('and', 'or', 'not', 'eq', 'lt', 'ifexp', 'add', 'attr', 'call')
 
@@ -298,9 +299,21 @@ def shape_to_ast(shape, leaves):
         return ast.Compare(left=kids[0], ops=[c()], comparators=[kids[1]])
     if op == 'chain':
         return ast.Compare(left=kids[0], ops=[ast.Lt(), ast.LtE()], comparators=[kids[1], kids[2]])
-    if op in ('add', 'sub', 'mul', 'pow'):
-        c = {'add': ast.Add, 'sub': ast.Sub, 'mul': ast.Mult, 'pow': ast.Pow}[op]
+    if op in ('add', 'sub', 'mul', 'pow', 'bitor'):
+        c = {'add': ast.Add, 'sub': ast.Sub, 'mul': ast.Mult, 'pow': ast.Pow, 'bitor': ast.BitOr}[op]
         return ast.BinOp(left=kids[0], op=c(), right=kids[1])
+    if op == 'inv': return ast.UnaryOp(op=ast.Invert(), operand=kids[0])
+    if op == 'lam0':
+        return ast.Lambda(args=ast.arguments(posonlyargs=[], args=[], vararg=None, kwonlyargs=[], kw_defaults=[],
+                                             kwarg=None, defaults=[]), body=kids[0])
+    if op == 'fstr':
+        return ast.JoinedStr(values=[ast.Constant(value='<'), ast.FormattedValue(value=kids[0], conversion=-1, format_spec=None)])
+    if op == 'fspec':
+        return ast.JoinedStr(values=[ast.FormattedValue(value=kids[0], conversion=ord('r'),
+                                                        format_spec=ast.JoinedStr(values=[ast.Constant(value='>9')])),
+                                     ast.Constant(value='{}')])
+    if op == 'slice': return ast.Subscript(value=kids[0], slice=ast.Slice(lower=kids[1], upper=kids[2], step=None), ctx=ast.Load())
+    if op == 'starcall': return ast.Call(func=kids[0], args=[ast.Starred(value=kids[1], ctx=ast.Load())], keywords=[])
     if op == 'attr': return ast.Attribute(value=kids[0], attr='p', ctx=ast.Load())
     if op == 'call': return ast.Call(func=kids[0], args=[kids[1]], keywords=[])
     if op == 'call0': return ast.Call(func=kids[0], args=[], keywords=[])
@@ -417,7 +430,11 @@ def rand_expr(rng, n, o, boolctx=True):
         if n < 2: return ast.UnaryOp(op=ast.USub(), operand=E(n))
         l, r = _split(rng, n, 2)
         ops = _BINOPS + ([ast.MatMult] if o.matmul else [])
-        return ast.BinOp(left=E(l), op=rng.choice(ops)(), right=E(r))
+        op = rng.choice(ops)
+        left, right = E(l), E(r)
+        if op in (ast.Pow, ast.LShift, ast.Mult) and not any(isinstance(x, ast.Name) for x in ast.walk(right)):
+            right = _name(rng.choice(o.names))      # never a constant-only exponent/shift/repeat: 7 ** 7 ** 7 hangs
+        return ast.BinOp(left=left, op=op(), right=right)
     if kind == 'unary':
         return ast.UnaryOp(op=rng.choice((ast.USub, ast.UAdd, ast.Invert))(), operand=E(n))
     if kind == 'compare':
@@ -539,7 +556,8 @@ def rand_expr(rng, n, o, boolctx=True):
         if x < 0.4:
             return ast.Compare(left=rand_leaf(rng, o), ops=[rng.choice((ast.In, ast.NotIn))()], comparators=[g])
         if x < 0.8:
-            return ast.Call(func=_name(rng.choice(o.names)), args=[g], keywords=[])
+            kws = [ast.keyword(arg='k', value=rand_leaf(rng, o))] if rng.random() < 0.25 else []
+            return ast.Call(func=_name(rng.choice(o.names)), args=[g], keywords=kws)
         return g
     raise AssertionError(kind)
 
@@ -553,6 +571,158 @@ def rand_source(rng, n, o):
             tree = ast.parse(src, mode='eval').body
             compile(src, '<exprgen>', 'eval')
         except (SyntaxError, ValueError, TypeError, RecursionError, MemoryError, OverflowError):
+            continue
+        return src, tree
+    return 'a', ast.parse('a', mode='eval').body
+
+
+# --------------------------------------------------------------------------
+# typed expressions over concrete caller-scope values (C04 end-to-end part)
+# --------------------------------------------------------------------------
+# Names the expressions may use and the kind of value they are expected to hold:
+#   a, b, c, d : int      s, t : str      xs : list of 3 ints      dd : dict {'k1': int, 'k2': int}
+#   o : object with .v (int) .w (str) .child (object with .v, .m) and method .m(x, y=1) -> int
+#   fn(x, y=1, *rest, **kw) -> int
+INT_NAMES = ('a', 'b', 'c', 'd')
+STR_NAMES = ('s', 't')
+_TY = {'ifexp': True, 'boolop': True, 'chain': True}     # grammar switches, set by typed_source()
+
+
+def _c(v): return ast.Constant(value=v)
+def _bin(l, op, r): return ast.BinOp(left=l, op=op(), right=r)
+def _call(f, args=(), kws=()): return ast.Call(func=f, args=list(args), keywords=[ast.keyword(arg=k, value=v) for k, v in kws])
+def _attr(v, a): return ast.Attribute(value=v, attr=a, ctx=ast.Load())
+def _sub(v, i): return ast.Subscript(value=v, slice=i, ctx=ast.Load())
+
+
+def typed_int(rng, n, depth=0):
+    """Random int-valued expression AST of about n nodes over the caller-scope names."""
+    if n <= 1 or depth > 7:
+        x = rng.random()
+        if x < 0.55: return _name(rng.choice(INT_NAMES))
+        if x < 0.7: return _c(rng.choice((0, 1, 2, 3, 5, 10)))
+        if x < 0.78: return _attr(_name('o'), 'v')
+        if x < 0.84: return _attr(_attr(_name('o'), 'child'), 'v')
+        if x < 0.92: return _sub(_name('xs'), _c(rng.choice((0, 1, 2, -1))))
+        return _sub(_name('dd'), _c(rng.choice(('k1', 'k2'))))
+    n -= 1
+    I = lambda m: typed_int(rng, max(1, m), depth + 1)
+    Bo = lambda m: typed_bool(rng, max(1, m), depth + 1)
+    l, r = _split(rng, max(n, 2), 2)
+    x = rng.random()
+    if x < 0.26:
+        op = rng.choice((ast.Add, ast.Sub, ast.Mult, ast.Add, ast.Sub, ast.FloorDiv, ast.Mod, ast.BitAnd, ast.BitOr, ast.BitXor))
+        return _bin(I(l), op, I(r))
+    if x < 0.31:
+        return _bin(I(l), rng.choice((ast.LShift, ast.RShift)), _bin(I(r), ast.Mod, _c(5)))
+    if x < 0.37:
+        return _bin(I(n), ast.Pow, _c(rng.choice((0, 1, 2, 3))))
+    if x < 0.47:
+        return ast.UnaryOp(op=rng.choice((ast.USub, ast.USub, ast.USub, ast.USub, ast.USub, ast.UAdd, ast.UAdd, ast.Invert))(), operand=I(n))
+    if x < 0.59 and _TY['ifexp']:
+        b_, t_, e_ = _split(rng, max(n, 3), 3)
+        return ast.IfExp(test=Bo(t_), body=I(b_), orelse=I(e_))
+    if 0.59 <= x < 0.66 and _TY['boolop']:
+        return ast.BoolOp(op=rng.choice((ast.And, ast.Or))(), values=[I(l), I(r)])
+    if x < 0.74:
+        y = rng.random()
+        if y < 0.4: return _call(_name('fn'), [I(n)])
+        if y < 0.7: return _call(_name('fn'), [I(l)], [('y', I(r))])
+        if y < 0.85: return _call(_attr(_name('o'), 'm'), [I(n)])
+        return _call(_attr(_attr(_name('o'), 'child'), 'm'), [I(l)], [('y', I(r))])
+    if x < 0.86:
+        # attribute / call / subscript on a compound receiver
+        recv = I(n)
+        y = rng.random()
+        if y < 0.35: return _attr(recv, 'real')
+        if y < 0.6: return _call(_attr(recv, 'bit_length'))
+        if y < 0.8: return _sub(ast.Tuple(elts=[I(l), I(r)], ctx=ast.Load()), _c(rng.choice((0, 1))))
+        return _sub(ast.Dict(keys=[_c('k')], values=[I(n)]), _c('k'))
+    if x < 0.93:
+        lam = ast.Lambda(args=ast.arguments(posonlyargs=[], args=[ast.arg(arg='q')], vararg=None, kwonlyargs=[],
+                                            kw_defaults=[], kwarg=None, defaults=[]),
+                         body=_bin(_name('q'), rng.choice((ast.Add, ast.Mult, ast.Sub)), I(l)))
+        return _call(lam, [I(r)])
+    return _call(_name('len'), [typed_str(rng, n, depth + 1)])
+
+
+def typed_bool(rng, n, depth=0):
+    if n <= 2 or depth > 7:
+        return ast.Compare(left=typed_int(rng, 1, depth + 1), ops=[rng.choice((ast.Lt, ast.Gt, ast.Eq, ast.NotEq, ast.LtE, ast.GtE))()],
+                           comparators=[typed_int(rng, 1, depth + 1)])
+    n -= 1
+    l, r = _split(rng, max(n, 2), 2)
+    I = lambda m: typed_int(rng, max(1, m), depth + 1)
+    Bo = lambda m: typed_bool(rng, max(1, m), depth + 1)
+    x = rng.random()
+    if x < 0.4:
+        return ast.Compare(left=I(l), ops=[rng.choice((ast.Lt, ast.Gt, ast.Eq, ast.NotEq, ast.LtE, ast.GtE))()], comparators=[I(r)])
+    if x < 0.5 and _TY['chain']:
+        a_, b_, c_ = _split(rng, max(n, 3), 3)
+        return ast.Compare(left=I(a_), ops=[ast.Lt(), ast.LtE()], comparators=[I(b_), I(c_)])
+    if x < 0.62: return ast.UnaryOp(op=ast.Not(), operand=Bo(n))
+    if x < 0.82 and _TY['boolop']: return ast.BoolOp(op=rng.choice((ast.And, ast.Or))(), values=[Bo(l), Bo(r)])
+    if x < 0.92: return ast.Compare(left=I(n), ops=[rng.choice((ast.In, ast.NotIn))()], comparators=[_name('xs')])
+    return ast.Compare(left=I(l), ops=[rng.choice((ast.Is, ast.IsNot))()], comparators=[_c(None)])
+
+
+def typed_str(rng, n, depth=0):
+    if n <= 1 or depth > 7:
+        x = rng.random()
+        if x < 0.6: return _name(rng.choice(STR_NAMES))
+        if x < 0.8: return _c(rng.choice(('x', 'ab', '', 'Q{z}')))
+        return _attr(_name('o'), 'w')
+    n -= 1
+    I = lambda m: typed_int(rng, max(1, m), depth + 1)
+    S = lambda m: typed_str(rng, max(1, m), depth + 1)
+    Bo = lambda m: typed_bool(rng, max(1, m), depth + 1)
+    l, r = _split(rng, max(n, 2), 2)
+    x = rng.random()
+    if x < 0.15: return _bin(S(l), ast.Add, S(r))
+    if x < 0.2: return _bin(S(l), ast.Mult, _bin(I(r), ast.Mod, _c(3)))
+    if x < 0.3: return _call(_attr(S(n), rng.choice(('upper', 'lower', 'strip', 'title'))))
+    if x < 0.36: return _sub(S(l), ast.Slice(lower=_bin(I(r), ast.Mod, _c(2)), upper=None, step=None))
+    if 0.36 <= x < 0.44 and _TY['ifexp']:
+        b_, t_, e_ = _split(rng, max(n, 3), 3)
+        return ast.IfExp(test=Bo(t_), body=S(b_), orelse=S(e_))
+    if 0.44 <= x < 0.5: return _bin(_c('%s-%s'), ast.Mod, ast.Tuple(elts=[I(l), S(r)], ctx=ast.Load()))
+    if 0.5 <= x < 0.54 and _TY['boolop']: return ast.BoolOp(op=ast.Or(), values=[S(l), S(r)])
+    # f-strings
+    k = rng.choice((1, 1, 2))
+    vals = []
+    lits = ['', 'x', '=', '{', '}', '{}', 'a{b}c', '{{', ' %']
+    for sz in _split(rng, max(n, k), k):
+        if rng.random() < 0.55: vals.append(_c(rng.choice(lits)))
+        if rng.random() < 0.6:
+            v = I(sz); conv = rng.choice((-1, -1, ord('r'), ord('s')))
+            spec = rng.choice((None, None, '>4', '04d', 'x', '<3', '+', '^5')) if conv == -1 else rng.choice((None, '>6', '<4'))
+        else:
+            v = S(sz); conv = rng.choice((-1, -1, ord('r'), ord('s'), ord('a')))
+            spec = rng.choice((None, None, '>6', '<4', '^7', '.1'))
+        fs = None
+        if spec is not None:
+            if rng.random() < 0.2:
+                fs = ast.JoinedStr(values=[_c(spec[0] if spec[0] in '<>^' else '>'),
+                                           ast.FormattedValue(value=_bin(typed_int(rng, 1, depth + 1), ast.Mod, _c(6)), conversion=-1, format_spec=None)])
+            else:
+                fs = ast.JoinedStr(values=[_c(spec)])
+        if rng.random() < 0.08:
+            v = _sub(ast.Dict(keys=[_c('k')], values=[v]), _c('k'))        # expression starting with a brace
+        vals.append(ast.FormattedValue(value=v, conversion=conv, format_spec=fs))
+    if rng.random() < 0.4: vals.append(_c(rng.choice(lits)))
+    return ast.JoinedStr(values=vals)
+
+
+def typed_source(rng, typ, n, ifexp=True, boolop=True, chain=True):
+    """(source, tree) of a random expression of static type typ in {'int','str','bool'}."""
+    f = {'int': typed_int, 'str': typed_str, 'bool': typed_bool}[typ]
+    _TY.update(ifexp=ifexp, boolop=boolop, chain=chain)
+    for _ in range(20):
+        node = f(rng, n)
+        try:
+            src = ast.unparse(ast.fix_missing_locations(ast.Expression(body=node)))
+            tree = ast.parse(src, mode='eval').body
+        except (SyntaxError, ValueError, TypeError, RecursionError):
             continue
         return src, tree
     return 'a', ast.parse('a', mode='eval').body
